@@ -174,7 +174,7 @@ def main(argv=None):
                 for k in range(parts):
                     bjobs.append((prop, t.name, case, max(1, n // parts), seed * 1000 + k))
             else:
-                jobs.append((prop, t.name, case, timeout_ms, known, 400 if tier == 'quick' else 3600))
+                jobs.append((prop, t.name, case, timeout_ms, known, 1500 if tier == 'quick' else 7200))
     if not jobs and not bjobs:
         print('CHECKER-ERROR property=%s no tasks' % prop)
         return 3
